@@ -148,6 +148,8 @@ SlotUniverse(s) ==
                                 Op("add", AdaE(Lit(1000000)), AnyA(Hex(H2), Str(<<98>>), Op("sub", PN, PM))),
                                 Op("sub", Op("sub", Source, AdaE(PN)), FeesE), Op("sub", Source, TokE(PN))}
       [] s \in {"b_mint", "b_burn"} -> {TokE(PN), TokE(Op("sub", PN, PM)), TokE(Op("add", PN, PM)), AnyA(Hex(H2), Str(<<98>>), U("neg", PN))}
+      \* the mint field aggregates blocks: two mints of one asset, a mint and a burn of it, the same over two assets of a policy
+      [] s \in {"b_mint2", "b_mint_burn", "b_burn2"} -> {TokE(PN), Op("add", TokE(PN), AnyA(Hex(H1), Str(<<98>>), PN)), AnyA(Hex(H2), Str(<<98>>), PN)}
       [] s \in {"b_since", "b_until"} -> {PN, Op("add", PN, PM), Op("sub", PN, PM), U("neg", PN)}
       [] s = "b_meta_value" -> {PN, Op("add", PN, PM), U("neg", PN)}
       [] s = "b_meta_key" -> {PN}
@@ -157,6 +159,9 @@ SlotUniverse(s) ==
       [] s = "b_balanced" -> {Op("sub", Op("sub", Source, AdaE(PN)), FeesE),                 \* plain transfer
                               Op("sub", Op("add", Op("sub", Source, AdaE(PN)), TokE(Lit(3))), FeesE),   \* keeps what it mints
                               Op("sub", Op("sub", Op("sub", Source, AdaE(PN)), TokE(Lit(2))), FeesE)}   \* burns 2
+
+\* the asset expression of the (first) class of e with amount x
+SameClassAs(e, x) == IF e.k = "anyasset" THEN [e EXCEPT !.amt = x] ELSE TokE(x)
 
 WithSlot(s, e) ==
     CASE s = "out_amount" -> [BaseTx EXCEPT !.outputs = <<Out("", FALSE, Receiver, e, Absent)>>]
@@ -181,6 +186,10 @@ WithSlot(s, e) ==
       [] s = "b_out_amount" -> [BaseB EXCEPT !.outputs = <<Out("", FALSE, Receiver, e, Absent)>>]
       [] s = "b_mint" -> [BaseB EXCEPT !.mints = <<[amount |-> e, redeemer |-> Absent]>>]
       [] s = "b_burn" -> [BaseB EXCEPT !.burns = <<[amount |-> e, redeemer |-> Absent]>>]
+      [] s = "b_mint2" -> [BaseB EXCEPT !.mints = <<[amount |-> e, redeemer |-> Absent], [amount |-> SameClassAs(e, PM), redeemer |-> Absent]>>]
+      [] s = "b_burn2" -> [BaseB EXCEPT !.burns = <<[amount |-> e, redeemer |-> Absent], [amount |-> SameClassAs(e, PM), redeemer |-> Absent]>>]
+      [] s = "b_mint_burn" -> [BaseB EXCEPT !.mints = <<[amount |-> e, redeemer |-> Absent]>>,
+                                            !.burns = <<[amount |-> SameClassAs(e, PM), redeemer |-> Absent]>>]
       [] s = "b_since" -> [BaseB EXCEPT !.validity = [k |-> "some", since |-> e, until |-> Absent]]
       [] s = "b_until" -> [BaseB EXCEPT !.validity = [k |-> "some", since |-> Absent, until |-> e]]
       [] s = "b_meta_value" -> [BaseB EXCEPT !.metadata = [k |-> "some", items |-> <<[key |-> Lit(1), value |-> e]>>]]
